@@ -25,11 +25,12 @@ Example C05_pin_shorthands :
 Proof. repeat split; reflexivity. Qed.
 
 (* ---- the round trip ------------------------------------------------------------------------------ *)
-(* Every well-formed path (u16 namespace indices; target name null, or any non-empty string of code
-   points; reference type a standard numeric id or any non-empty String id in any namespace; any
-   flags) with at most 32 elements of at most 256 bytes of text each, outside the two known classes:
-   the printer does not panic and its output parses back to exactly this path. *)
-Theorem C05_roundtrip : forall p, valid (CPath p) -> known (CPath p) = 0 ->
+(* Every well-formed path (valid: u16 namespace indices; target name null, or any non-empty string of
+   code points; reference type any numeric, Guid or ByteString id, or a non-empty String id, in any
+   namespace; any flags) outside the two known classes and within the parser's limits (at most 32
+   elements of at most 256 bytes of text each): the printer does not panic and its output parses back
+   to exactly this path. *)
+Theorem C05_roundtrip : forall p, valid (CPath p) -> known (CPath p) = 0 -> over_limit p = false ->
   exists s, print_path p = Ok s /\ parse s = Ok p.
 Proof. exact roundtrip. Qed.
 Print Assumptions C05_roundtrip.
@@ -38,13 +39,25 @@ Example C05_roundtrip_nonvacuous :
   let p := [mk_el (mk_nid 1 (IStr (Some [38; 47; 46; 60; 62; 58; 35; 33]))) true false
                   (mk_qn 65535 (Some [33; 35; 58; 62; 60; 46; 47; 38; 10; 128512]));
             mk_el (mk_nid 0 (INum 34)) false true (mk_qn 2 (Some [97; 62; 98]))] in
-  valid (CPath p) /\ known (CPath p) = 0 /\
+  valid (CPath p) /\ known (CPath p) = 0 /\ over_limit p = false /\
   run (CPath p) = (Z.of_nat (length (match print_path p with Ok s => s | _ => [] end)))
                     :: (match print_path p with Ok s => s | _ => [] end) ++ enc_path p.
 Proof.
-  cbv zeta. split; [split; [repeat constructor; cbn; try lia; discriminate | reflexivity]|].
-  split; vm_compute; reflexivity.
+  cbv zeta. split; [repeat constructor; cbn; try lia; discriminate|].
+  split; [|split]; vm_compute; reflexivity.
 Qed.
+
+(* beyond the documented limits of the parser (more than 32 elements, or an element whose text is
+   longer than 256 bytes) the text of a well-formed path is rejected: no panic, no different path *)
+Theorem C05_over_limit_rejected : forall p, valid (CPath p) -> known (CPath p) = 0 -> over_limit p = true ->
+  exists s, print_path p = Ok s /\ parse s = Err.
+Proof. exact over_limit_rejected. Qed.
+Print Assumptions C05_over_limit_rejected.
+
+Example C05_over_limit_nonvacuous :
+  let p := repeat (mk_el (mk_nid 0 (INum 33)) false true (mk_qn 0 (Some [97]))) 33 in
+  valid (CPath p) /\ known (CPath p) = 0 /\ over_limit p = true.
+Proof. cbv zeta. split; [cbn [repeat]; repeat constructor; cbn; try lia; discriminate|]. split; vm_compute; reflexivity. Qed.
 
 (* one element: the element pattern, the target-name pattern, the flags and the resolvers *)
 Theorem C05_element_roundtrip : forall e w, good e -> print_elem e = Ok w -> parse_elem w = Ok e.
@@ -74,6 +87,8 @@ Proof. exact print_panics_iff. Qed.
 Print Assumptions C05_print_panics_iff.
 
 (* ---- the oracle on the model's output -------------------------------------------------------------- *)
+(* for every well-formed path outside the known classes (within the limits: parsed back to the path;
+   beyond them: rejected) and for every string (a path or an error, no panic) *)
 Theorem C05_oracle : forall c, valid c -> known c = 0 -> oracle c (run c) = true.
 Proof. exact oracle_holds. Qed.
 Print Assumptions C05_oracle.
@@ -102,25 +117,25 @@ Print Assumptions C05_known_2_refuted.
      nsidx     /10:foo                      newline   /2:a<LF>b
      greedy    <HasChild>2:a&>b             unescape  <1:Connected&.To>1:Boiler *)
 Theorem C05_legacy_refuted_nsidx :
-  valid (CPath w_legacy_nsidx) /\ known (CPath w_legacy_nsidx) = 0 /\
+  valid (CPath w_legacy_nsidx) /\ known (CPath w_legacy_nsidx) = 0 /\ over_limit w_legacy_nsidx = false /\
   exists s, print_path w_legacy_nsidx = Ok s /\ Legacy.parse s <> Ok w_legacy_nsidx /\ parse s = Ok w_legacy_nsidx.
 Proof. exact legacy_refuted_nsidx. Qed.
 Print Assumptions C05_legacy_refuted_nsidx.
 
 Theorem C05_legacy_refuted_newline :
-  valid (CPath w_legacy_newline) /\ known (CPath w_legacy_newline) = 0 /\
+  valid (CPath w_legacy_newline) /\ known (CPath w_legacy_newline) = 0 /\ over_limit w_legacy_newline = false /\
   exists s, print_path w_legacy_newline = Ok s /\ Legacy.parse s <> Ok w_legacy_newline /\ parse s = Ok w_legacy_newline.
 Proof. exact legacy_refuted_newline. Qed.
 Print Assumptions C05_legacy_refuted_newline.
 
 Theorem C05_legacy_refuted_greedy :
-  valid (CPath w_legacy_greedy) /\ known (CPath w_legacy_greedy) = 0 /\
+  valid (CPath w_legacy_greedy) /\ known (CPath w_legacy_greedy) = 0 /\ over_limit w_legacy_greedy = false /\
   exists s, print_path w_legacy_greedy = Ok s /\ Legacy.parse s <> Ok w_legacy_greedy /\ parse s = Ok w_legacy_greedy.
 Proof. exact legacy_refuted_greedy. Qed.
 Print Assumptions C05_legacy_refuted_greedy.
 
 Theorem C05_legacy_refuted_unescape :
-  valid (CPath w_legacy_unescape) /\ known (CPath w_legacy_unescape) = 0 /\
+  valid (CPath w_legacy_unescape) /\ known (CPath w_legacy_unescape) = 0 /\ over_limit w_legacy_unescape = false /\
   exists s, print_path w_legacy_unescape = Ok s /\ Legacy.parse s <> Ok w_legacy_unescape /\ parse s = Ok w_legacy_unescape.
 Proof. exact legacy_refuted_unescape. Qed.
 Print Assumptions C05_legacy_refuted_unescape.
